@@ -1,8 +1,10 @@
 """Grammar-based xlsx generator for C03: varies the *file* encodings of cells (t = s / str / inlineStr / b / e / n / absent),
 shared-formula blocks, xml:space, entities and character references in text and attributes, optional attributes, column and
 row spans, rich / phonetic strings and style resolution through cellXfs - and records the intended meaning of every file.
-Everything emitted stays inside what Excel itself writes for the construct. stdlib only."""
-import io, json, random, zipfile
+Everything emitted stays inside what Excel itself writes for the construct, except for one layout variant: a third of the
+files carry indented ("pretty-printed") sheet XML, as XML libraries of other producers write it - white space between
+elements of element-only content means nothing. stdlib only."""
+import io, json, random, re, zipfile
 from xml.sax.saxutils import escape
 
 NS = 'http://schemas.openxmlformats.org/spreadsheetml/2006/main'
@@ -164,6 +166,9 @@ def generate(seed):
     sheets = []
     dnames = []
     all_tables = []
+    pretty = rng.random() < 0.33
+    if pretty:
+        features.add('indented-sheet-xml')
     for si, name in enumerate(names):
         cells = {}
         xml_rows = {}
@@ -199,7 +204,8 @@ def generate(seed):
                 x = '<c r="%s"%s t="e"><v>%s</v></c>' % (ref, s_attr, e)
                 m.update(k='error', v=e)
             elif kind == 'str':
-                t = rng.choice([t for t in TEXTS if t])
+                # the cached string of a formula may be empty
+                t = rng.choice([t for t in TEXTS if t]) if rng.random() < 0.85 else ''
                 f = gen_formula(rng, c, r, plain_names)
                 x = '<c r="%s"%s t="str"><f>%s</f><v>%s</v></c>' % (ref, s_attr, escape(render_formula(f)), text_xml(rng, t))
                 m.update(k='text', v=t, f=render_formula(f))
@@ -339,6 +345,9 @@ def generate(seed):
         ws = ('<?xml version="1.0" encoding="UTF-8" standalone="yes"?>\n<worksheet xmlns="%s" xmlns:r="%s"><sheetViews><sheetView workbookViewId="0"/></sheetViews><sheetFormatPr defaultRowHeight="15"/>%s<sheetData>%s</sheetData>%s%s%s</worksheet>'
               % (NS, RNS, cols, ''.join(rows_xml), ('<mergeCells count="%d">%s</mergeCells>' % (len(merges), ''.join('<mergeCell ref="%s"/>' % m for m in merges))) if merges else '',
                  ('<hyperlinks>%s</hyperlinks>' % ''.join(hl)) if hl else '', table_parts))
+        if pretty:
+            # line breaks and indentation between the elements of sheetData (never inside <v>, <f>, <t> or <is>)
+            ws = re.sub(r'>(?=<(?:c |/c>|row |/row>|f[ >]|v>|is>|/sheetData>))', lambda m_: '>\n' + ' ' * rng.choice([2, 4, 8]), ws)
         sheets.append({'name': name, 'xml': ws, 'rels': rels, 'cells': {col(c) + str(r): v for (c, r), v in cells.items() if v}, 'links': links, 'merges': merges, 'tables': tables})
         if rng.random() < 0.5:
             q = "'%s'" % name.replace("'", "''") if not name.isalnum() or name == 'R1' else name
